@@ -325,6 +325,13 @@ func (fc *fnCtx) execCall(st *state, ins ssa.Instruction, c *ssa.CallCommon, res
 		for k := 0; k < sig.Results().Len(); k++ {
 			vals = append(vals, fc.freshVal(st, "opq", sig.Results().At(k).Type()))
 		}
+	case c.IsInvoke() && blk == nil:
+		// interface method of /repo without a contract: nothing is known about its result; it is
+		// assumed not to touch the state this function models (listed in the evidence)
+		fc.trusted["uncontracted interface method "+name+" (result unconstrained, no effect on modelled state)"] = true
+		for k := 0; k < sig.Results().Len(); k++ {
+			vals = append(vals, fc.freshVal(st, "ifc", sig.Results().At(k).Type()))
+		}
 	case fc.isExternalCallee(c):
 		// code outside /repo without a contract: result unconstrained, no effect on modelled state
 		// (it cannot reach the library's unexported state except through its arguments)
